@@ -19,7 +19,7 @@ SMRates == {-1, 0, 1000000}     \* rates used by the state machine part (negativ
 VARIABLES db, hist, mode
 vars == <<db, hist, mode>>
 
-P_C27_ComputeLemmas == LemmaBound /\ LemmaSign /\ LemmaOdd /\ LemmaIdentity /\ LemmaSmall /\ LemmaOverflow
+P_C27_ComputeLemmas == LemmaBound /\ LemmaSign /\ LemmaOdd /\ LemmaIdentity /\ LemmaSmall /\ LemmaOverflow /\ LemmaSaturate
 ASSUME P_C27_ComputeLemmas
 ASSUME TLCSet(1, <<>>) /\ TLCSet(2, 0)
 ASSUME ndJsonSerialize("grid.ndjson", <<[rates |-> SetToSeq(GridRates), amounts |-> SetToSeq(GridAmounts)]>>)
